@@ -117,4 +117,35 @@ theorem setQuat_getQuat_id (t : Tm ℝ) (x y z w : ℝ) (hq : quatToRot x y z w 
     (setQuat t x y z w).TM = t.TM := by
   simp only [setQuat, ofTM, hq]
 
+/-- the quaternion form is insensitive to the scale and the sign of the quaternion (scipy normalises first; q and −q
+    are the same rotation): equivalent quaternion descriptions of one pose give the same matrix -/
+theorem quatToRot_smul (k x y z w : ℝ) (hk : k ≠ 0) :
+    quatToRot (k * x) (k * y) (k * z) (k * w) = quatToRot x y z w := by
+  unfold quatToRot
+  simp only [sqrt_real]
+  have hs : Real.sqrt (k * x * (k * x) + k * y * (k * y) + k * z * (k * z) + k * w * (k * w))
+      = |k| * Real.sqrt (x * x + y * y + z * z + w * w) := by
+    rw [show k * x * (k * x) + k * y * (k * y) + k * z * (k * z) + k * w * (k * w)
+        = k ^ 2 * (x * x + y * y + z * z + w * w) by ring, Real.sqrt_mul (sq_nonneg k), Real.sqrt_sq_eq_abs]
+  rw [hs]
+  set n := Real.sqrt (x * x + y * y + z * z + w * w)
+  have key : ∀ a b : ℝ, (k * a / (|k| * n)) * (k * b / (|k| * n)) = (a / n) * (b / n) := by
+    intro a b
+    have hk2 : |k| ≠ 0 := abs_ne_zero.mpr hk
+    by_cases hn : n = 0
+    · simp [hn]
+    · field_simp
+      rw [show |k| ^ 2 = k ^ 2 from sq_abs k]
+      ring
+  simp only [M3.mk.injEq]
+  refine ⟨?_, ?_, ?_, ?_, ?_, ?_, ?_, ?_, ?_⟩ <;> simp only [key, mul_sub, mul_add]
+
+theorem quatToRot_neg (x y z w : ℝ) : quatToRot (-x) (-y) (-z) (-w) = quatToRot x y z w := by
+  have := quatToRot_smul (-1) x y z w (by norm_num)
+  simpa using this
+
+theorem ctor_quat_scale (p : V3 ℝ) (k x y z w : ℝ) (hk : k ≠ 0) :
+    (ctor7 p (k * x) (k * y) (k * z) (k * w)).TM = (ctor7 p x y z w).TM := by
+  rw [ctor_quat, ctor_quat, quatToRot_smul k x y z w hk]
+
 end BR.C04
